@@ -31,19 +31,28 @@
     T4  generated_frames_are_one_reading_frame   construct_frames_from_location never re-synchronises: the walk keeps
                                            every position after the first `starting_frame` (every layout, also
                                            overlapping / empty blocks, as long as the 5' block holds the offset: F-C05h)
-    T5  codon_window_partial               the window arithmetic: cutting d retained bases at the 5' end and iterating
-                                           triples from offset (−d) mod 3 yields exactly the codons lying inside
+    T5  window_codons_are_the_inner_codons       `scan_chromosome_codon_locations(lo, hi)` (= `scan_chunk_relative_…`
+                                           on a chromosome parent), lo < hi, at least one kept position inside, no
+                                           expand: the returned locations are the codons of the CDS lying inside the
+                                           window — multi-exon CDS (every frame vector) and
+        window_codons_single_exon_frame0   single-exon CDS with start frame 0 (frame ≠ 0: F-C05a);
+        window_offset_arithmetic           the arithmetic core (offset (−d) mod 3 ⇒ exactly the inner codons)
 
     T2b coding_sequence_is_codon_concatenation   `okCdsSeq`: extract_sequence() of the CDS = concatenation of the
                                            letters of the reference codons (complemented on the minus strand)
+        cached_path_equals_fast_path             … and the cached codon path returns the same letters
     T3b protein_is_standard_code_translation     `okTranslate`: translate(trunc, table, strict) of the CDS
+        codon_iterator_lists_reference_codons    `okScanCodons`: scan_codons(trunc)
+        start_codon_predicates_read_first_codon, canonical_start_reads_first_codon   `okFirstCodon`
+        valid_stop_reads_last_codon              `okHasValidStop`
+        in_frame_stop_reads_inner_codons         `okInFrameStop`
 
-  Resting on the correspondence run (stated, not proved — see the comments at the end): the cached codon path of
-  `extract_sequence`, `scan_codons` / `has_*` at the level of the CDS, and T5 in terms of chromosome windows
-  (`okCodons … (some window)`).
+  Resting on the correspondence run (stated, not proved — see the comments at the end): windows with
+  `expand_window_to_partial_codons` and with a `None` bound.
 -/
-import BioCantor.Proofs.CDSSeq
+import BioCantor.Proofs.CDSPredicates
 import BioCantor.Proofs.CDSDeepTrim
+import BioCantor.Proofs.CDSWindowCodons
 import BioCantor.Proofs.CDSConstructFrames
 import BioCantor.Proofs.CDSTranslate
 import BioCantor.Proofs.CDSFastPath
@@ -142,6 +151,59 @@ theorem protein_is_standard_code_translation (c : CDS) (h : WFCDS c)
     okTranslate (specOf c) trunc table strict (ans (translate c trunc (table : Int) strict)) = true :=
   translate_ok c h hshallow hkept chrom hs halpha trunc strict table ht
 
+/-- **T2b** the cached codon path (`extract_sequence()` after the codon locations were listed) returns the same
+    letters as the fast path. -/
+theorem cached_path_equals_fast_path (c : CDS) (h : WFCDS c)
+    (hshallow : shallowTrim (exonWalk c.loc (specFrames c)) = true)
+    (hkept : c.loc.blocks.length = 1 ∨ cdsKept c.loc (specFrames c) ≠ [])
+    (chrom : List Char) (hs : SeqOK c chrom) :
+    okCdsSeq (specOf c) (ans (extractSequenceCached c)) = true ∧ extractSequenceCached c = extractSequence c :=
+  cachedSeq_ok c h hshallow hkept chrom hs
+
+/-- **T3b** `scan_codons(truncate_at_in_frame_stop)` lists the upper-case reference codons (cut after the first stop). -/
+theorem codon_iterator_lists_reference_codons (c : CDS) (h : WFCDS c)
+    (hshallow : shallowTrim (exonWalk c.loc (specFrames c)) = true)
+    (hkept : c.loc.blocks.length = 1 ∨ cdsKept c.loc (specFrames c) ≠ [])
+    (chrom : List Char) (hs : SeqOK c chrom) (halpha : ∀ ch ∈ chrom, ch.toUpper ∈ Gen.codonAlphabet) (trunc : Bool) :
+    okScanCodons (specOf c) trunc (ans (scanCodons c trunc)) = true :=
+  scanCodons_ok c h hshallow hkept chrom hs halpha trunc
+
+/-- **T3b** `has_start_codon_in_specific_translation_table` is "the first reference codon is a start codon of the
+    table"; on a CDS without a complete codon the modelled code lets StopIteration escape (`obsOpt … = none`,
+    finding F-C19e), which the clause accepts as a refusal. -/
+theorem start_codon_predicates_read_first_codon (c : CDS) (h : WFCDS c)
+    (hshallow : shallowTrim (exonWalk c.loc (specFrames c)) = true)
+    (hkept : c.loc.blocks.length = 1 ∨ cdsKept c.loc (specFrames c) ≠ [])
+    (chrom : List Char) (hs : SeqOK c chrom) (halpha : ∀ ch ∈ chrom, ch.toUpper ∈ Gen.codonAlphabet)
+    (table : Nat) (starts : List (List Char)) (ht : startCodonsOf table = some starts) :
+    okFirstCodon (specOf c) starts (obsOpt (ans (hasStartCodonIn c (table : Int)))) = true :=
+  startCodon_ok c h hshallow hkept chrom hs halpha table starts ht
+
+/-- **T3b** `has_canonical_start_codon` -/
+theorem canonical_start_reads_first_codon (c : CDS) (h : WFCDS c)
+    (hshallow : shallowTrim (exonWalk c.loc (specFrames c)) = true)
+    (hkept : c.loc.blocks.length = 1 ∨ cdsKept c.loc (specFrames c) ≠ [])
+    (chrom : List Char) (hs : SeqOK c chrom) (halpha : ∀ ch ∈ chrom, ch.toUpper ∈ Gen.codonAlphabet) :
+    okFirstCodon (specOf c) ["ATG".toList] (obsOpt (ans (hasCanonicalStartCodon c))) = true :=
+  canonicalStart_ok c h hshallow hkept chrom hs halpha
+
+/-- **T3b** `has_valid_stop` is "the last reference codon is a stop codon". -/
+theorem valid_stop_reads_last_codon (c : CDS) (h : WFCDS c)
+    (hshallow : shallowTrim (exonWalk c.loc (specFrames c)) = true)
+    (hkept : c.loc.blocks.length = 1 ∨ cdsKept c.loc (specFrames c) ≠ [])
+    (chrom : List Char) (hs : SeqOK c chrom) (halpha : ∀ ch ∈ chrom, ch.toUpper ∈ Gen.codonAlphabet) :
+    okHasValidStop (specOf c) (ans (hasValidStop c)) = true :=
+  hasValidStop_ok c h hshallow hkept chrom hs halpha
+
+/-- **T3b** `has_in_frame_stop` is "a reference codon other than the last is a stop codon" (refused exactly when
+    the default strict translation is). -/
+theorem in_frame_stop_reads_inner_codons (c : CDS) (h : WFCDS c)
+    (hshallow : shallowTrim (exonWalk c.loc (specFrames c)) = true)
+    (hkept : c.loc.blocks.length = 1 ∨ cdsKept c.loc (specFrames c) ≠ [])
+    (chrom : List Char) (hs : SeqOK c chrom) (halpha : ∀ ch ∈ chrom, ch.toUpper ∈ Gen.codonAlphabet) :
+    okInFrameStop (specOf c) (ans (hasInFrameStop c)) = true :=
+  hasInFrameStop_ok c h hshallow hkept chrom hs halpha
+
 /-- **T3** the generated `gencode` dictionary is the NCBI standard code, on every string. -/
 theorem gencode_is_ncbi_standard (v : List Char) : Gen.gencode.lookup v = standardCode v :=
   gencode_eq_standard v
@@ -160,17 +222,29 @@ theorem generated_frames_are_one_reading_frame (l : Location) (loc : Loc) (hl : 
     okFrames loc f.value.toNat ((ans (constructFramesFromLocation l f)).map frameVals) = true :=
   constructFrames_ok l loc hl hne hdir f hf hfirst
 
-/- **T5** (full statement, not proved): for `c` with `WFCDS c`, `shallowTrim …`, a window `w = ⟨some lo, some hi, false⟩`
-   with `0 ≤ lo < hi` holding at least one kept position (and, for a single-exon CDS, start frame 0):
-       okCodons (specOf c) (some w) (ans (scanChromosomeCodonLocations c (some w))) = true
-   Missing for the full statement: bases of `cleaned_location.intersection(window)` = the kept positions inside the
-   window (a contiguous stretch `kept[d : d+m]`), and the filter-form of the right-hand side below.
-   Outside that domain the pinned code deviates: F-C05a (single exon, frame ≠ 0), F-C05d (lo = hi), F-C05e (no kept
-   position in the window), F-C05f / F-C05g (expand). -/
-/-- **T5 (partial)** the arithmetic of a codon window on the kept list: `d` retained bases lie before the window,
-    `m` inside it; iterating triples from offset `(−d) mod 3` (`offset_after_cut`) over the window's stretch yields
-    exactly the codons of the CDS that lie inside the window. -/
-theorem codon_window_partial (kept : List Nat) (d m : Nat) :
+/-- **T5** codon windows, multi-exon CDS.  `inW lo hi p` is `lo ≤ p < hi`.  The guards are the complement of the
+    catalogued deviations: `lo < hi` (F-C05d), a kept position inside the window (F-C05e), no expand (F-C05f/g);
+    `hseq`: the window must not reach past the chromosome letters (the library then refuses it). -/
+theorem window_codons_are_the_inner_codons (c : CDS) (h : WFCDS c) (hmulti : c.loc.blocks.length > 1)
+    (hshallow : shallowTrim (exonWalk c.loc (specFrames c)) = true)
+    (lo hi : Nat) (hw : lo < hi) (hseq : ∀ s, c.seq = some s → hi ≤ s.length)
+    (hsome : (cdsKept c.loc (specFrames c)).filter (inW lo hi) ≠ []) :
+    okCodons (specOf c) (some ⟨some (lo : Int), some (hi : Int), false⟩)
+      (ans (scanChromosomeCodonLocations c (some ⟨some (lo : Int), some (hi : Int), false⟩))) = true :=
+  windowCodons_multi c h hmulti hshallow lo hi hw hseq hsome
+
+/-- **T5** codon windows, single-exon CDS with start frame 0 (with frame 1 / 2 the pinned code does not reduce the
+    offset modulo three and loses codons: F-C05a, witness below). -/
+theorem window_codons_single_exon_frame0 (c : CDS) (h : WFCDS c) (e : Blk) (hone : c.loc.blocks = [e])
+    (hf : c.frames = [.ZERO]) (lo hi : Nat) (hw : lo < hi) (hseq : ∀ s, c.seq = some s → hi ≤ s.length)
+    (hsome : (cdsKept c.loc (specFrames c)).filter (inW lo hi) ≠ []) :
+    okCodons (specOf c) (some ⟨some (lo : Int), some (hi : Int), false⟩)
+      (ans (scanChromosomeCodonLocations c (some ⟨some (lo : Int), some (hi : Int), false⟩))) = true :=
+  windowCodons_single c h e hone hf lo hi hw hseq hsome
+
+/-- **T5 (arithmetic core)** `d` retained bases lie before the window, `m` inside it; iterating triples from offset
+    `(−d) mod 3` (`offset_after_cut`) over the window's stretch yields exactly the codons inside the window. -/
+theorem window_offset_arithmetic (kept : List Nat) (d m : Nat) :
     triples (((kept.drop d).take m).drop ((3 - d % 3) % 3)) =
       ((triples kept).drop ((d + 2) / 3)).take ((d + m) / 3 - (d + 2) / 3) :=
   window_triples kept d m
@@ -192,6 +266,9 @@ example : CodonOK "ATG".toList ∧ CodonOK "CTN".toList := by
 example : toLoc (.compound ⟨[(0, 5), (7, 11), (12, 18)], .minus⟩) = some ⟨[(0, 5), (7, 11), (12, 18)], .minus⟩ ∧
     (CDSFrame.TWO).value ≤ (firstLen ⟨[(0, 5), (7, 11), (12, 18)], .minus⟩ : Int) := by decide
 
+-- a window over the example CDS that holds kept positions
+example : (cdsKept exampleCDS.loc (specFrames exampleCDS)).filter (inW 3 18) ≠ [] := by decide
+
 /-- the example CDS with letters: every hypothesis of T2b / T3b holds -/
 def exampleSeqCDS : CDS := { exampleCDS with seq := some "ACGTNACGTAGCTAGCTRYAcgt".toList }
 example : SeqOK exampleSeqCDS "ACGTNACGTAGCTAGCTRYAcgt".toList := by
@@ -203,19 +280,14 @@ example : ∀ ch ∈ "ACGTNACGTAGCTAGCTRYAcgt".toList, ch.toUpper ∈ Gen.codonA
 
 /-! ### stated, not proved (these clauses rest on the correspondence run of harness/props/c05.py)
 
-  `okScanCodons`, `okFirstCodon`, `okHasValidStop`, `okInFrameStop` at the level of the CDS: same route as
-    T2b/T3b (`extractSequence_kept` gives the letters), not written out.
+  T5 with `expand_window_to_partial_codons = True`: on a CDS in one uninterrupted frame 0 and for windows that do not
+    reach the trailing incomplete codon,
+      okCodons (specOf c) (some ⟨some lo, some hi, true⟩) (ans (scanChromosomeCodonLocations c (some ⟨some lo, some hi, true⟩))) = true
+    (everywhere else the pinned code deviates: F-C05f, F-C05g).  `_expand_coordinates_to_codons` is modelled
+    (`Model.expandCoordinatesToCodons`) and compared on every run; no theorem.
 
-  T2 (cached path) — `extractSequenceCached c = extractSequence c`; needs the letters of every codon location
-    (`locationSeq_letters` applied to the sub-intervals returned by `scan_windows`).
-
-  T5 (full) — for a window [lo, hi):
-      okCodons (specOf c) (some ⟨some lo, some hi, false⟩)
-        (ans (scanChromosomeCodonLocations c (some ⟨some lo, some hi, false⟩))) = true
-    outside the catalogued deviation classes (Spec.codonsClass: F-C05a, d, e, f, g).
-    Proved part: `codon_window_partial` + `offset_after_cut` + T2 for the cleaned location.
-    Missing: bases of `cleaned_location.intersection(window)` = the kept positions inside the window.
-
+  T5 with a `None` bound (`W _ hi` / `W lo _`): the bound is replaced by `cds_starts[0]` / `cds_ends[-1]` and the
+    statement above applies; not written out.
 -/
 
 /-! ### witnesses: the modelled current code deviates at the catalogued inputs (findings/C05.json) -/
